@@ -10,148 +10,200 @@ NOTE_COMMON = ('trusted: pyvc VC generator (kept honest by per-path CPython cros
                'contracts (stubs) listed in evidence.coverage.trusted_base; ')
 
 CLAIMED = {
- 'C01': dict(text='Proof that _recv_packet hands a payload to a handler only after exactly one decrypt_packet call on '
-                  '(receive counter, first block, rest, 4, mac) with the RFC 4253 framing, uses nothing but its result, and '
-                  'raises MACError on a missing result; per cipher class (Basic, ETM, GCM, Chacha) that the tag is checked '
-                  'over the right bytes and plaintext released only on success (ETM: cipher untouched before the MAC passes); '
-                  '_HMAC.sign/verify and _NullMAC.verify against the RFC 4253 6.4 MAC input.',
-             ref='4/C01, 9', note='MAC/AEAD unforgeability, compare_digest and the cipher primitives are uninterpreted '
-                  '(crypto assumptions); UMAC and the crypto/ shims are not under contract'),
- 'C02': dict(text='Proof on send_packet (all block-size/header cases) that the bytes handed to the transport are '
-                  'enc(uint32 len || padlen || payload || padding) || mac with 4 <= padlen <= 255 aligned to the block size and '
-                  'the MAC computed over the pre-increment sequence number; Kex.compute_key equals the RFC 4253 7.2 expansion '
-                  '(inductive chain predicate, minimal length, truncation); send_newkeys installs keys derived with letters '
-                  'A..F in the right directions, session id write-once; GCMCipher._update_iv per RFC 5647; _recv_pkthdr/'
-                  '_recv_packet consume nothing unless the unit is complete and then exactly that unit (chunk independence).',
-             ref='4/C02, 9', note='hash objects are accumulators with an uninterpreted digest; zlib framing not verified; '
-                  'block sizes {1,8,16} read from the cipher table as data; the lemma "per-step framing => any segmentation" is argued on paper'),
- 'C03': dict(text='Proof that _choose_alg returns the first client-preferred algorithm the server also lists (or raises iff '
-                  'disjoint) for all lists and both roles; that _process_kexinit stores the peer KEXINIT verbatim and chooses every '
-                  'algorithm from the list of its own direction; that _recv_version keeps exactly the wire bytes of the version '
-                  'line (one trailing CR removed); hash-input layout and range/role checks of the DH exchange where built.',
-             ref='4/C03, 9', note='hash/signature/DH primitives uninterpreted; GSS kex not verified'),
- 'C04': dict(text='Proof of the host-key trust decision: _validate_host_key returns a key only if checking is disabled or the '
-                  'key is not revoked and (trusted or accepted by the owner) - revocation also applies to trusted keys; the '
-                  'certificate path (CA not revoked, trusted, cert.validate(HOST, host)); certificate validate (type, window, '
-                  'principals); SSHKnownHosts._match classification with a frame obligation that a lookup never changes the stored '
-                  'entries; match() port fallback keeps port-specific revocations.',
-             ref='4/C04, 9', note='pattern matching itself is C17; X.509 chain validation trusted; key parsing abstract'),
- 'C05': dict(text='Proof over the server authentication code: every path to send_success carries the credential predicate of '
-                  'that auth class for the auth object\'s own user, the object is not cancelled and still bound to the connection\'s '
-                  'user (binding invariant J proved on the writers); tasks are created through the auth object so cancel() stops '
-                  'them; signature is over session id + this exact request; permission/option decision tables; client accepts '
-                  'SUCCESS only with a request outstanding.',
-             ref='4/C05, 9', note='asyncio cancellation semantics, application callbacks, key.verify and authorized_keys '
-                  'validation are assumed contracts; GSS MIC start path and channel-side enforcement of restrictions not reached'),
- 'C06': dict(text='Proof over ALL message types 0..255 and all phase-flag valuations that the dispatch in '
-                  '_recv_packet only invokes a handler the RFC phase table allows, that disallowed messages are fatal '
-                  '(or answered UNIMPLEMENTED, never under strict kex before keys), and the sequence-number rule of '
-                  '_finish_recv_packet (reset exactly at NEWKEYS under strict kex).',
-             ref='4/C06, 9', note='handlers are abstract; supporting invariants A1/A2 (auth objects exist only after keys) '
-                  'are preconditions; handler-side role checks only where other properties put them under contract'),
- 'C07': dict(text='Proof on the channel buffer code: sender conservation (flat(emitted) ++ flat(_send_buf) is invariant, data '
-                  'keeps its datatype, EOF leaves only when the buffer has drained, once); receiver FIFO (delivered ++ _recv_buf '
-                  'constant across the flush loop), eof_received only with an empty buffer, from eof_pending, at most once, decoder '
-                  'finalised once before EOF/close; write/write_eof/pause/resume; channel dispatch by recipient number.',
-             ref='4/C07, 9', note='codecs incremental coders trusted; session callbacks may pause reading but do not re-enter; '
-                  'known finding F-C07-1 (pending EOF forgotten when CLOSE arrives while paused) recorded'),
- 'C08': dict(text='Proof on the real channel buffer code: every DATA/EXTENDED_DATA packet emitted by _flush_send_buf has '
-                  '1 <= len <= min(peer window, max packet size) and the window never goes negative (pre-at-call '
-                  'obligations at the emission site), the flush loop makes progress and is conservative (flat-stream '
-                  'loop invariant, variant), window adjusts re-flush, a delivery never leaves the advertised window below '
-                  'half, data beyond the window is a ProtocolError in _process_data, and a peer maximum packet size < 1 '
-                  'is rejected where it is stored.',
-             ref='4/C08, 9', note='liveness across the network not decided (local progress only); known finding F4 '
-                  '(window charged on delivery, so excess data is accepted while reading is paused) is recorded in '
-                  'known_findings.json; flat/tagged/chunks_ok are recursive spec functions used through instances'),
- 'C09': dict(text='Proof of the safety core of orderly termination: channel/connection/stream cleanup resolves every waiter that '
-                  'exists, notifies session and owner exactly once and nothing after, removes the channel from the table, is '
-                  'idempotent; _force_close schedules exactly one cleanup iff the transport is set; cleanup is scheduled exactly '
-                  'when the receive side turns closed; drain raises on a lost connection.',
-             ref='4/C09, 9', note='liveness over the scheduler ("none waits forever") is not decided by contracts; asyncio '
-                  'Future/Event/call_soon are assumed contracts; SFTP handler cleanup not covered'),
- 'C10': dict(text='Proof of termination variants and signals clauses on the code that consumes peer bytes: every SSHPacket '
-                  'reader method keeps its representation invariant and raises only PacketDecodeError; _recv_data lets nothing '
-                  'escape and its loop has a variant; _recv_version line/banner limits; transport message handlers; the '
-                  '`while packet:` loops consume input every iteration; der_decode/der_decode_partial and all registered decoders '
-                  'raise only ASN1DecodeError; SOCKS/X11 prefix automata make progress and stop after close; editor line bound; '
-                  'validate_sshsig returns a bool.',
-             ref='4/C10, 9', note='wall-clock cost of bytes concatenation is not modelled (iteration counts only); handlers '
-                  'behind process_packet are assumed to raise only DisconnectError/PacketDecodeError; RecursionError covered by a '
-                  'bounded native probe only; SFTPAttrs.decode not under contract'),
- 'C11': dict(text='Proof on send_packet for every packet type, flag valuation and block size/header case: what is '
-                  'emitted during a key exchange is a kex/transport message (RFC 4253 7.1), every packet is queued xor '
-                  'emitted, kex messages are never queued, the rekey trigger fires iff limits are reached, sequence rule; '
-                  '_send_deferred_packets resubmits FIFO and keeps packets re-queued by a nested exchange.',
-             ref='4/C11, 9', note='time.monotonic uninterpreted; _send_kexinit is an assumed contract here; compressor and '
-                  'cipher objects abstract'),
- 'C12': dict(text='Proof on the SFTP parallel I/O engine: _start_tasks keeps issued ranges disjoint, sized 1..block_size and '
-                  'covering the request (variant _bytes_left); the iter() generator delivers every position below EOF exactly '
-                  'once, re-issues exactly the remainder of a short read, never ends normally after a failed block; reader '
-                  'reassembly by absolute offset; copier total check; _request_ranges window; SFTPClientFile offset tracking.',
-             ref='4/C12, 9', note='asyncio.wait partition, server reply contract (0 <= count <= size) assumed; composition of '
-                  'iter() with the three run() callers argued on paper; Windows/fallback range variants not covered'),
- 'C13': dict(text='Proof over all byte strings that SFTPServer.map_path stays inside the chroot, reverse_map_path/readlink/'
-                  'symlink likewise, a dataflow scan that every path reaching the OS in SFTPServer comes from map_path, SCP sink '
-                  'names have no separator and are not "..", recursive SFTP copy/glob never join a remote name that is not a '
-                  'direct child.',
-             ref='4/C13, 9', note='posixpath join/normpath/basename are assumed contracts validated exhaustively on a bounded '
-                  'alphabet (bounded stand-in, not counted); symlinks already on disk and Windows path forms out of scope'),
- 'C14': dict(text='Proof that SFTPServerHandler._process_packet sends exactly one reply with the request id on every '
-                  'path that does not propagate a BaseException, of the declared return type on success and FXP_STATUS with the '
-                  'documented code on every error (unknown type, malformed body, errno table), with the dispatch tables re-read '
-                  'from source; client id allocation mod 2^32, waiter stored under its id, reply pops exactly its own waiter, '
-                  'type check in _make_request, a request stays outstanding until replied; framing of send/recv_packet(s).',
-             ref='4/C14, 9', note='request handlers abstract; attribute codecs v3-v6 covered by an exhaustive bounded stand-in '
-                  '(not counted); id uniqueness needs < 2^32 outstanding requests (precondition)'),
- 'C15': dict(text='Proof of the FORMAT layer of key export/import: packet encoders vs SSHPacket decoders (byte-level round '
-                  'trips), per-key-type SSH public/private blob codecs (rsa, dsa, ecdsa, eddsa), export_private_key (PEM label and '
-                  'encryption decision agree for every passphrase incl. the empty one, OpenSSH container layout, padding 1,2,3.. to '
-                  'the block size, equal check words), export_public_key shapes, _decode_openssh_private/decode_ssh_public_key '
-                  'acceptance conditions with the comment returned verbatim and wrong passphrase => KeyEncryptionError, '
-                  '_parse_rfc4716/_parse_pem/_match_next on exporter-shaped text.',
-             ref='4/C15, 9', note='key material (PyCA), bcrypt, ciphers, pbe.py, base64 and der_encode are assumed contracts; '
-                  'DER, base64 armour and MPInt round trips are bounded stand-ins only (not counted); interoperability with '
-                  'OpenSSH/PyCA is argued through the shared format specs, wrong-passphrase rejection for PKCS#1/#8 PBE not claimed'),
- 'C16': dict(text='Proof that SSHKey.verify never raises and accepts only String(alg)||rest with alg in THIS key class\'s own '
-                  'algorithm set (per-class sets never shared or mutated), sign emits the layout verify parses; certificate '
-                  'construct verifies exactly the consumed prefix ending in the CA key with the signature as last field and decodes '
-                  'options with the tables of the certificate\'s own type (unknown critical option => KeyImportError); validate '
-                  '(type, valid_after <= now < valid_before, principals); SSHSIG blob equals the PROTOCOL.sshsig layout and is '
-                  'injective; validate_sshsig returns True only for a verifying key that allowed-signers authorises.',
-             ref='4/C16, 9', note='signature primitives and hashes uninterpreted (EUF-CMA / collision resistance are crypto '
-                  'assumptions); SSHAllowedSigners.validate and X.509 chains abstract; the SSHPacket reader is used through a '
-                  'word-equation contract proved on the real packet.py'),
- 'C17': dict(text='Proof on pattern.py, known_hosts.py, auth_keys.py and the options tokenizer: pattern lists (some positive '
-                  'matches and no negated one does, ! stripped exactly from negated ones), bracket escaping, CIDR/wildcard host '
-                  'patterns, known_hosts load routing (exact vs pattern, markers, unparsable lines skipped without effect), _match '
-                  'selection and classification, port fallback, hashed hosts, authorized_keys first-matching-entry rule with ALL '
-                  'options required, the {plain, quoted, escaped} tokenizer automaton as a loop invariant.',
-             ref='4/C17, 9', note='fnmatch/ipaddress/HMAC are assumed contracts with bounded differential stand-ins (also '
-                  'against ssh-keygen -F for the oracle); known finding F-C17-3 recorded'),
- 'C18': dict(text='Proof on config.py: every setter is first-value-wins over the whole option map (explicit none counts), '
-                  'accumulators accumulate, Match evaluates the conjunction with per-criterion negation (recursive spec), '
-                  'expansion = env(token(value)) and raises exactly on unresolved references, the server %u safety regex is '
-                  'equivalent to the stated predicate (regex translated to z3 Re, search semantics), parse() leaves inactive lines '
-                  'without effect; plus a bounded comparison against the real ssh -G.',
-             ref='4/C18, 9', note='shlex tokenizer only bounded-checked; known findings F-C18-2 (Host a,b) and F-C18-3 '
-                  '(trailing # comment) recorded; Include not under contract'),
+ 'C01': dict(text='Proof that _recv_packet hands a payload to a handler only after exactly one decrypt_packet call with the '
+                  'RFC 4253 framing and the live receive counter, uses only its result, raises MACError otherwise, admits no '
+                  'ignorable message before the first keys under strict kex; _recv_data answers a failed step with DISCONNECT + '
+                  '_force_close; transport end without DISCONNECT is an error; the four decrypt_packet / encrypt_packet classes, '
+                  '_HMAC/_UMAC/_NullMAC, GCMCipher (IV advanced once per call) and ChachaCipher/poly1305 check the tag over the '
+                  'right bytes before any plaintext; send_newkeys letters/directions; strict kex exactly from the peer marker.',
+             ref='4/C01, 9', note='MAC/AEAD unforgeability, compare_digest and the cryptography AES-GCM / Poly1305 / hmac / '
+                  'umac library contracts are trusted; MAC table tag sizes are a data lemma (AST); strict-kex 64-case native grid '
+                  'is a bounded stand-in (not proved); a hostile packet_length < blocksize-4 is excluded by requires; that a closed '
+                  'connection delivers nothing is C10; no recorded finding'),
+ 'C02': dict(text='Proof on send_packet (4 block-size/header cases) of the RFC 4253 binary packet layout, MAC over the '
+                  'pre-increment sequence number, the sequence rule incl. strict-kex reset at NEWKEYS, compression iff in effect '
+                  'for the direction, queued xor emitted; the four encrypt_packet classes; Kex.compute_key equals the RFC 4253 7.2 '
+                  'expansion; send_newkeys letters A..F / directions / framing; GCMCipher._update_iv; receive framing '
+                  '(_recv_version/_pkthdr/_packet/_data, data_received, _finish_recv_packet) consumes nothing unless the unit is '
+                  'complete and then exactly it; initial framing, get_encryption, Encryption.new, cipher constructors.',
+             ref='4/C02, 9', note='hash accumulator model, zlib framing, sane packet_length, compression getters and the '
+                  'asyncio done-callback are assumed; block sizes {1,8,16} (AST) and the 331-row cipher x MAC suite table '
+                  '(evaluated natively, exhaustive, not SMT) are data lemmas; segmentation lemma: base and step solver-checked, '
+                  'induction principle and handler refinement argued on paper; no recorded finding'),
+ 'C03': dict(text='Proof that _choose_alg returns the first client-preferred common algorithm (raises iff disjoint); '
+                  '_recv_version keeps exactly the wire line; _process_kexinit in three regions consumes the packet completely, '
+                  'records the peer KEXINIT verbatim, takes every algorithm from the lists of its own direction, starts the kex '
+                  'once and skips only a wrong guess; choose_server_host_key; hash prefix and hash input layout, range/role/group '
+                  'checks, verify-before-NEWKEYS and complete consumption of every kex_dh (DH, ECDH, hybrid, gex) and kex_rsa '
+                  'message; transcript-injectivity lemma.',
+             ref='4/C03, 9', note='hash/signature/DH primitives, MPInt, NameList uninterpreted; GSS kex not verified; edits '
+                  'that leave the hash input unchanged (non-canonical mpints, banner lines, signature re-encodings) are outside; '
+                  'message order is C06; native _process_kexinit run on 300 (thorough 1500) random name-lists is a bounded stand-in '
+                  '(not proved); known finding F-C03-1 recorded (client does not enforce the negotiated host key algorithm)'),
+ 'C04': dict(text='Proof of the host-key trust decision: _validate_host_key / _validate_openssh_host_certificate return a '
+                  'key only if checking is disabled or it is not revoked and trusted (or owner-accepted; defaults say no); '
+                  'certificate validate (type, window, principals); validate_server_host_key; _match_known_hosts replaces the trust '
+                  'sets; SSHKnownHosts._match / match classification, port fallback keeping revocations, lookup never changes '
+                  'stored entries; match_known_hosts, read_known_hosts, known_hosts / peername / options regions; adopted C16 '
+                  '(certificate construct, key __eq__) and C17 (patterns, known_hosts load) contracts.',
+             ref='4/C04, 9', note='key __hash__, X.509 chain validation, callable/tuple matcher forms, file access and the '
+                  'options-to-connection copy are trusted; GSS kex checks no host key by design; writers of the trust sets by two '
+                  'AST scans; native lookup-purity test (3 cases) is a bounded stand-in (not proved); ordering before credentials '
+                  'rests on C03/C06 contracts; no recorded finding'),
+ 'C05': dict(text='Proof on the server authentication code: every _Server*Auth handler answers once, last, grants only '
+                  'where its credential predicate holds for its own live user, a valid credential is admitted; '
+                  '_process_userauth_request, _finish_userauth, send_userauth_success/_failure, reload_config keep invariants J '
+                  '(binding), C (configuration) and guarantee G; validators accept only a signature by the authorised key over '
+                  'session id + this request; Auth.cancel/create_task; callback forwarders, *_auth_supported; channel enforcement '
+                  'of command/pty/environment; client accepts SUCCESS only with a request outstanding.',
+             ref='4/C05, 9', note='awaits are cut points (rely/guarantee); asyncio task rules, application callbacks, '
+                  'key.verify, cert.validate, X.509 chains, SASLprep and the GSS context are assumed contracts; writers of the auth '
+                  'state, grant and look-up call sites by four AST scans; C04 host-key contracts used as callee stubs; known '
+                  'finding F-C05-12 recorded (per-user configuration not tied to the user being authenticated)'),
+ 'C06': dict(text='Proof over ALL message types 0..255 and all phase-flag valuations that the dispatch in _recv_packet only '
+                  'invokes a handler the phase table allows, disallowed or malformed messages are fatal (UNIMPLEMENTED never under '
+                  'strict kex before keys), and the sequence rule of _finish_recv_packet; handler side: KEXINIT strict-kex / '
+                  'in-progress rules, NEWKEYS, service request/accept, EXT_INFO, userauth request/success/failure/banner are fatal '
+                  'and inert in the wrong role or phase, IGNORE/UNIMPLEMENTED/DEBUG change nothing, invariants A1/A2 on their '
+                  'writers, role checks of 10 kex_dh/kex_rsa handlers, strict send-counter reset, no kex handler after our NEWKEYS.',
+             ref='4/C06, 9', note='handler objects are abstract inside the gate; role checks of the auth method handlers and '
+                  'the __init__ / _cleanup writers of the phase fields are not under contract; strict-kex 64-case native grid is a '
+                  'bounded stand-in (not proved); no recorded finding'),
+ 'C07': dict(text='Proof on the channel buffer code: written bytes join the end of flat(emitted) ++ flat(_send_buf) once '
+                  'with their datatype, every packet cut conserves the stream, EOF leaves only when pending and drained, once; '
+                  'received payloads are accepted unaltered only in state open, delivered FIFO with nothing lost or duplicated, '
+                  'eof_received only with an empty buffer and at most once, decoder flushed before EOF/close; '
+                  'pause/resume/start/discard transitions, set_encoding, add/remove_channel, dispatch by recipient number; the C19 '
+                  'stream readers (read, readuntil, readline) re-registered.',
+             ref='4/C07, 9', note='codecs incremental coders trusted; session callbacks may pause reading but do not raise or '
+                  're-enter otherwise; TunTap framing and a full channel table out of scope; the claim ends at '
+                  'session.data_received (C19 above, C02/C11 below); known finding F-C07-1 recorded (pending EOF forgotten when '
+                  'CLOSE arrives while paused)'),
+ 'C08': dict(text='Proof on the channel buffer code: every DATA/EXTENDED_DATA packet emitted by _flush_send_buf has 1 <= '
+                  'len <= min(peer window, max packet size), the window never goes negative, the flush loop makes progress and '
+                  'loses nothing, window adjusts re-flush, the writer is resumed at or below low water; data beyond the window is a '
+                  'ProtocolError, a delivery replenishes the window at half, buffered bytes stay within the advertised window; '
+                  'process_open / process_open_confirmation and the connection open handlers store exactly the limits of the '
+                  'packet, max packet size >= 1.',
+             ref='4/C08, 9', note='liveness across the network not decided (local progress only); session callbacks assumed '
+                  'not to re-enter; total_bytes >= 0 by a solver-checked induction (induction principle trusted); known finding F4 '
+                  'recorded (window charged on delivery: excess data accepted while reading is paused), the paused-path proofs are '
+                  'conditional on it'),
+ 'C09': dict(text='Proof of the safety core of orderly termination: channel / connection (incl. client and server '
+                  'overrides) / stream / process / SFTP client cleanup resolves every registered waiter, notifies session and owner '
+                  'exactly once and nothing after, is idempotent; _force_close, connection_lost, abort schedule exactly one cleanup '
+                  'iff still open; the close handshake schedules cleanup exactly when the receive side turns closed; waiters are '
+                  'registered where cleanup finds them and never after it; global and channel request queues answer in FIFO order; '
+                  'no reader parks once EOF is latched; drain never returns normally on a lost connection.',
+             ref='4/C09, 9', note='liveness over the scheduler/network is not decided; asyncio Future/Event/call_soon are '
+                  'assumed contracts; close()/cancel() of collaborators assumed not to raise; other _force_close call sites, SFTP '
+                  'server cleanup and listener.py (C20) not covered; known finding F-C09-3 recorded (pending close/EOF left behind '
+                  'when a flush raises in application context)'),
+ 'C10': dict(text='Proof of termination variants and signals clauses on the code that consumes peer bytes: all 15 SSHPacket '
+                  'methods keep the representation invariant; the receive pump (_recv_version, _recv_pkthdr, _recv_packet, '
+                  '_recv_data) makes progress and an error means closed; _force_close, internal_error, _reap_task; transport '
+                  'handlers; all DER decoders raise only ASN1DecodeError; the while-packet loops consume input; editor line bound; '
+                  'SOCKS and X11 automata; validate_sshsig never raises; import_*_key and match_base64 raise only documented '
+                  'errors; server copy-data loop bounded by the data present; C08 channel-open and flush contracts cloned.',
+             ref='4/C10, 9', note='cost is claimed as iteration counts, not wall-clock; memory not bounded; indirect '
+                  'handler/decoder calls go through the proved handler contracts; RecursionError is not modelled by the engine: '
+                  'nested-SEQUENCE native probe (24 inputs) is a bounded stand-in (not proved); no recorded finding'),
+ 'C11': dict(text='Proof on send_packet (4 cases): what is emitted during a key exchange is a kex/transport message, '
+                  'forbidden types are deferred, queued xor emitted, kex messages never queued, rekey trigger, sequence rule, bytes '
+                  'counted; _send_deferred_packets resubmits FIFO and keeps packets re-queued by a nested exchange; _send_kexinit '
+                  'sends one KEXINIT; _process_kexinit answers iff ours was not sent, second KEXINIT fatal; _process_newkeys clears '
+                  'the stage; send_newkeys writes the session id once, flushes only after NEWKEYS under the new keys, rebuilds '
+                  'compression; C03 record/negotiate, C02 compute_key, C06 receive gate and counter re-registered.',
+             ref='4/C11, 9', note='time.monotonic, compressor and cipher objects, _send_ext_info abstract; mutual recursion '
+                  'goes through verified callee contracts (partial correctness plus a pkttype well-foundedness obligation); the '
+                  'order of the _kex writer is argued, not proved; block sizes {1,8,16} as data lemma; no recorded finding'),
+ 'C12': dict(text='Proof on the SFTP transfer code: _SFTPParallelIO.iter (async generator, pointwise ghost position) '
+                  'delivers every byte below EOF exactly once, none twice or outside the range, never ends in success after a '
+                  'failed block; _start_tasks; reader / writer / copier run_task and run (every source byte written once at its '
+                  'offset, destination extends to the announced size); constructors and _start_task; SFTPClientFile read, write, '
+                  'seek, tell, read_parallel, request_ranges; client handler and server handler read/write/ranges/copy-data; '
+                  'LocalFile and SFTPServer read/write; _request_ranges; _copy file branch, remote_copy, open.',
+             ref='4/C12, 9', note='asyncio.wait partition, 0 <= count <= size replies, lseek semantics and OS file objects '
+                  'assumed; tile-counter axioms by 28 solver-checked induction lemmas; composition of iter() with the reader into '
+                  'result == source still argued on paper; liveness not decided; directory/symlink branches (C13), open56 and '
+                  'Windows range variants not covered; no recorded finding'),
+ 'C13': dict(text='Proof over all byte strings that SFTPServer.map_path stays inside the chroot, reverse_map_path / '
+                  'realpath / readlink report only paths under the root, symlink creates link and target inside it; SCP sink names '
+                  'have no separator and are not dotdot and every operation is on the given destination or a direct child; '
+                  'recursive SFTP _copy / _begin_copy / SFTPGlob join only direct children and test a composed destination for not '
+                  'being a symlink; basename/compose_path, LocalFS methods and _setstat touch exactly the given path; the C12 '
+                  'copier contracts re-registered; eight AST scans (server paths come from map_path, adapters, entry points).',
+             ref='4/C13, 9', note='posixpath join/normpath/basename/dirname are ASSUMED contracts checked exhaustively only '
+                  'over a 3-letter alphabet up to length 8 (thorough 10): bounded stand-in (not proved); symlinks already on disk, '
+                  'races, win32 path forms and SFTPClient as destination out of scope; known finding F-C13-2 recorded '
+                  '(symlink-then-directory download escape)'),
+ 'C14': dict(text='Proof that SFTPServerHandler._process_packet sends exactly one reply with the request id, of the '
+                  'declared type on success and FXP_STATUS with the documented code on every error, with the dispatch tables '
+                  're-read from source; the decode prefix of each of the 30 request handlers accepts exactly the body layout of the '
+                  'version; client id allocation, waiter table, reply matching, reply decoders and type check; framing of '
+                  'send/recv_packet(s); version exchange continues only with 3..6; SFTPError encode/construct; SFTPLimits / '
+                  'SFTPVFSAttrs / SFTPName / SFTPAttrs encode == spec and decode is its inverse for v3..v6.',
+             ref='4/C14, 9', note='handler bodies after the decode prefix are abstract; Record constructor and UTF-8 round '
+                  'trip trusted; flag-word lemma by exhaustive evaluation; extended attributes, SFTPRanges, str names and '
+                  'out-of-range values only by the executed codec round trip: bounded stand-in (not proved); id uniqueness needs < '
+                  '2^32 outstanding requests (precondition); no recorded finding'),
+ 'C15': dict(text='Proof of the FORMAT layer of key export/import: packet encoders vs SSHPacket getters incl. '
+                  'MPInt/get_mpint (over pow2/bitlen spec functions), rsa/dsa/ecdsa/eddsa SSH blob codecs, export_private_key / '
+                  'export_public_key / export_certificate shapes (labels, encryption decision, OpenSSH container, padding), '
+                  '_decode_openssh_private and decode_ssh_public_key acceptance conditions, text parsers on exporter-written '
+                  'families, the import dispatch layer (_decode_*, list readers, import_*_key raising only documented errors), '
+                  'PKCS#1/#8 structures for RSA/EC, RFC 1423 padding round trip, the PKCS#12 KDF block update.',
+             ref='4/C15, 9', note='key material (PyCA), bcrypt, PBES, ciphers, base64 and der_encode inside the exporters are '
+                  'assumed contracts; sk-* handlers assumed; hostile text is not covered by the parser contracts; base64 armour, '
+                  'MPInt value set, text-level export/import and DER round trips are bounded stand-ins (not proved); block sizes '
+                  'and wrap widths as data lemmas; no recorded finding'),
+ 'C16': dict(text='Proof that SSHKey.verify never raises and accepts only String(alg)||rest with alg in the algorithm set '
+                  'of this key class (sets never shared or mutated), sign emits the layout verify parses; per key type verify_ssh '
+                  'consumes the whole blob, sign_ssh layout, __eq__ over all public parameters; certificate construct accepts only '
+                  'if the CA signature verified over exactly the signed bytes and the object is their parse, options decoded with '
+                  'the tables of its own type, unknown critical option rejected; validate; generate; SSHSIG blob layout and '
+                  'injectivity, create/validate_sshsig, allowed-signers validate/load/match_options.',
+             ref='4/C16, 9', note='signature primitives, sha256/512, key-blob parsers and crypto back ends uninterpreted '
+                  '(EUF-CMA / collision resistance are crypto assumptions); SSHPacket used through a word-equation contract proved '
+                  'on packet.py; MPInt contract from C15; seven table lemmas read from the AST; RSA names of the same hash are '
+                  'aliases (accepted deviation); no recorded finding'),
+ 'C17': dict(text='Proof on pattern.py, known_hosts.py, auth_keys.py and the options tokenizer: pattern lists (some '
+                  'positive and no negated match), bracket escaping, CIDR/wildcard host patterns, known_hosts load routing through '
+                  'a ghost log of index operations, _match selection and classification, port fallback, plain and hashed hosts, '
+                  'match_known_hosts; authorized_keys load, entry construction and option handlers, first-matching-entry rule with '
+                  'all options required, validate_x509; the tokenizer automaton and _add_option; ip_network/ip_address.',
+             ref='4/C17, 9', note='fnmatch, ipaddress, base64, HMAC and key import are assumed contracts; layers are linked '
+                  'by identification, not by a solver step; key equality abstract; callable/list matcher forms and file access not '
+                  'covered; eleven native differential checks (fnmatch escaping, tokenizer, known_hosts files, ssh-keygen oracles) '
+                  'are bounded stand-ins (not proved); known finding F-C17-3 recorded (on a bounded check)'),
+ 'C18': dict(text='Proof on config.py: nine setters are first-value-wins with valid input only, accumulators accumulate '
+                  'without mutating inherited lists, _match evaluates the conjunction with per-criterion negation for client and '
+                  'server, _match_host, _match_val, expansion = env(token(value)) raising exactly on unresolved references, parse() '
+                  'line dispatch leaves inactive or unknown lines without effect and rejects leftovers, expansion region, _include, '
+                  'client tokens, the server user token never substitutes an unsafe user, _set_hostname, get_options copies, '
+                  'has_match_final, the three constructors, load; six keyword/token table lemmas (AST).',
+             ref='4/C18, 9', note='shlex/= tokeniser, pattern matching, pathlib/glob and Match exec are not under contract; '
+                  '15 comparisons with the real ssh -G on 150 (thorough 1500) generated configs are bounded stand-ins (not proved); '
+                  'known findings F-C18-2, F-C18-3, F-C18-5, F-C18-7, F-C18-8, F-C18-9, F-C18-10 recorded'),
  'C19': dict(text='Proof on the stream session buffer code: read(n)/readexactly/read-to-EOF, readuntil (literal and newline '
-                  'separators: the result ends in the first match, search window finds matches spanning chunk boundaries), '
-                  'readline return the next units of the stream offered since lock acquisition with nothing lost, duplicated or '
-                  'reordered, buffer-length accounting and no empty chunk left, flow-control invariant at every await and return, '
-                  'drain returns only when writable (re-checked after every wake-up) or raises when the connection is gone, '
-                  'connection_lost markers, collect_output accounting, exit status stored before the notification.',
-             ref='4/C19, 9', note='awaits are cut points with a rely (tail-append only, monotone EOF/lost flags); regex and '
-                  'multi-separator readuntil delegated to re with a bounded stand-in over all chunkings (not counted); '
-                  'redirection to OS-level targets, communicate/wait ordering and str mode not decided; AnyStr instantiated at bytes'),
- 'C20': dict(text='Proof of the relay invariant out ++ _inpbuf == in over SSHForwarder/SSHLocalForwarder (early data before EOF, '
-                  'EOF forwarded once, half-close, close closes both), the permission decision tables of direct-tcpip / '
-                  'tcpip-forward / streamlocal (key and certificate restrictions, permitopen incl. wildcard port, owner result), '
-                  'listener registered iff success reply, cancel removes exactly that listener, the SOCKS4/4a/5 request automaton '
-                  '(decode, variant, nothing parsed after close).',
-             ref='4/C20, 9', note='real sockets, listener objects and application callbacks abstract; tun/tap has no gate in '
-                  'the code and no obligation'),
+                  'separators) and readline return the next units of the stream with nothing lost, duplicated or reordered, '
+                  'buffer-length accounting, no empty chunk left, flow-control invariant at every await and return; data_received / '
+                  'eof_received / connection_lost / exception_received append at the tail and wake readers; pause/resume; drain '
+                  'returns only when writable; SSHProcess data_received, feed_recv_buf, collect_output keep order and the list '
+                  'object; exit status/signal handlers; C07 _flush_recv_buf ordering clauses re-registered.',
+             ref='4/C19, 9', note='awaits are cut points with a rely (tail-append only, monotone flags); AnyStr instantiated '
+                  'at bytes; regex/list separators and str mode over all chunkings of streams of <= 5 (thorough 6) units are a '
+                  'bounded stand-in (not proved); cancellation (a cancelled read loses data), feed_recv_buf/collect_output racing a '
+                  'reader, exit-status ordering and environment progress are outside the claim; no recorded finding'),
+ 'C20': dict(text='Proof of the permission gates (key/certificate permission and option tables, direct-tcpip / '
+                  'direct-streamlocal open, tcpip / streamlocal forward requests, listener registered iff success reply, no live '
+                  'listener displaced, cancel removes exactly that listener, X11 and agent), the relay invariant out ++ _inpbuf == '
+                  'in over SSHForwarder / SSHLocalForwarder (early data, EOF once, half-close, close closes both, back-pressure), '
+                  'the SOCKS4/4a/5 automaton (decode, progress, nothing parsed after close, request bytes never relayed), one reply '
+                  'per global request, listener close paths and bookkeeping of forward_* / create_server.',
+             ref='4/C20, 9', note='application callbacks, real sockets / create_server and ip_address abstract; the '
+                  'no-suspension window after attaching a peer is partly assumed; the common _cleanup loop is C09, the other stored '
+                  'restrictions C05; tun/tap has no gate in the code and no obligation; no bounded stand-in; no recorded finding'),
 }
 
 checks = []
